@@ -1,8 +1,16 @@
 import QcelVerif.Model.PTShipped
+import QcelVerif.Model.PeriodicSrcShipped
 import QcelVerif.Model.Dec
 import QcelVerif.Lib.Proto
-/-! Line-protocol driver for the C01 model:  `<accessor> <strict 0|1> i <int>` | `<accessor> <strict> s <hex bytes>`
-accessors: key Z E name A mass massbits (IEEE bits of float(mass)) period group.  Output `ok <value>` / `err NotAnElement` / `bad-op`. -/
+/-! Line-protocol driver for the C01 model:
+`<accessor> <strict 0|1> i <int> [<method>]` | `<accessor> <strict> s <hex bytes> [<method>]`
+accessors: key Z E name A mass massbits (IEEE bits of float(mass)) period group.
+Output, THREE-WAY material on every line: `<hand model> || <source-derived>` where each side is
+`ok <value>` / `err NotAnElement` (source-derived side: `err other:<Class>` for any other exception class) / `bad-op`.
+The hand-model side is `Model/PeriodicTable.lean` over the generated tables; the source-derived side executes the
+statements translated from periodic_table.py (`Gen/PeriodicSrc.lean`) over dictionaries built from the generated
+arrays in the translated construction order, under the Python method name `<method>` when given (second names go
+through the translated class-level bindings). -/
 open QcelVerif QcelVerif.PT QcelVerif.PStr QcelVerif.Proto
 
 def hexVal (c : Char) : Option Nat :=
@@ -18,9 +26,65 @@ def unhex : List Char → Option (List Nat)
 
 def showStr (n : Nat) : String := toStr (unpack n)
 
+def fmt (o : Option String) : String := match o with | some s => "ok " ++ s | none => "err NotAnElement"
+
+def handSide (acc : String) (a : PyVal) (strict : Bool) : String :=
+  if acc == "key" then fmt ((shipped.resolve a strict).map showStr)
+  else if acc == "Z" then fmt ((shipped.toZ a strict).map toString)
+  else if acc == "E" then fmt ((shipped.toE a strict).map showStr)
+  else if acc == "name" then fmt ((shipped.toName a strict).map showStr)
+  else if acc == "A" then fmt ((shipped.toA a).map toString)
+  else if acc == "mass" then fmt ((shipped.toMass a).map showStr)
+  else if acc == "massbits" then fmt ((shipped.toMass a).bind (fun m => (Dec.parse (unpack m)).map (fun d => toString d.toF64)))
+  else if acc == "period" then fmt ((shipped.toPeriod a).map toString)
+  else if acc == "group" then fmt ((shipped.toGroup a).map (fun g => match g with | some n => toString n | none => "None"))
+  else "bad-op"
+
+def excName : Src.Exc → String
+  | .NotAnElementError => "NotAnElement"
+  | .KeyError => "other:KeyError" | .ValueError => "other:ValueError" | .AttributeError => "other:AttributeError"
+  | .AssertionError => "other:AssertionError" | .TypeError => "other:TypeError" | .IndexError => "other:IndexError"
+  | .NameError => "other:NameError" | .unsupported => "other:<outside the modelled subset>"
+
+def fmtE (e : Except Src.Exc String) : String := match e with | .ok s => "ok " ++ s | .error x => "err " ++ excName x
+
+def accName? (m : String) : Option Src.AccName :=
+  if m == "to_Z" then some .to_Z else if m == "to_E" then some .to_E else if m == "to_element" then some .to_element
+  else if m == "to_A" then some .to_A else if m == "to_mass" then some .to_mass
+  else if m == "to_atomic_number" then some .to_atomic_number else if m == "to_symbol" then some .to_symbol
+  else if m == "to_name" then some .to_name else if m == "to_mass_number" then some .to_mass_number
+  else none
+
+def valStr : Src.Val → Except Src.Exc String
+  | .int i => .ok (toString i)
+  | .pstr n => .ok (showStr n)
+  | .str s => .ok (toStr s)
+  | _ => .error .unsupported
+
+def optStr (o : Option Nat) : String := match o with | some n => toString n | none => "None"
+
+def srcSide (acc : String) (a : PyVal) (strict : Bool) (method : Option String) : String :=
+  let E := Src.Env.ofSource
+  let viaAcc (dflt : Src.AccName) : Except Src.Exc Src.Val :=
+    match method with
+    | none => Src.accessorRun E dflt a strict
+    | some m => (match accName? m with | some n => Src.accessorRun E n a strict | none => .error .unsupported)
+  if acc == "key" then fmtE ((Src.resolveSrc a strict).map showStr)
+  else if acc == "Z" then fmtE (viaAcc .to_Z >>= valStr)
+  else if acc == "E" then fmtE (viaAcc .to_E >>= valStr)
+  else if acc == "name" then fmtE (viaAcc .to_element >>= valStr)
+  else if acc == "A" then fmtE (viaAcc .to_A >>= valStr)
+  else if acc == "mass" then fmtE (viaAcc .to_mass >>= valStr)
+  else if acc == "massbits" then
+    fmtE (viaAcc .to_mass >>= fun v => match v with
+      | .pstr m => (match Dec.parse (unpack m) with | some d => .ok (toString d.toF64) | none => .error .unsupported)
+      | _ => .error .unsupported)
+  else if acc == "period" then fmtE ((Src.toPeriodSrc E a).map optStr)
+  else if acc == "group" then fmtE ((Src.toGroupSrc E a).map optStr)
+  else "bad-op"
+
 def stepC01 (line : String) : String :=
-  match splitOnChar line ' ' with
-  | [acc, st, kind, payload] =>
+  let go (acc st kind payload : String) (method : Option String) : String :=
     let arg : Option PyVal :=
       if kind == "i" then (parseInt? payload).map PyVal.int
       else if kind == "s" then (unhex payload.toList).map PyVal.str
@@ -28,18 +92,13 @@ def stepC01 (line : String) : String :=
     match arg with
     | none => "bad-op"
     | some a =>
+      if st != "0" && st != "1" then "bad-op" else
       let strict := st == "1"
-      let fmt (o : Option String) : String := match o with | some s => "ok " ++ s | none => "err NotAnElement"
-      if acc == "key" then fmt ((shipped.resolve a strict).map showStr)
-      else if acc == "Z" then fmt ((shipped.toZ a strict).map toString)
-      else if acc == "E" then fmt ((shipped.toE a strict).map showStr)
-      else if acc == "name" then fmt ((shipped.toName a strict).map showStr)
-      else if acc == "A" then fmt ((shipped.toA a).map toString)
-      else if acc == "mass" then fmt ((shipped.toMass a).map showStr)
-      else if acc == "massbits" then fmt ((shipped.toMass a).bind (fun m => (Dec.parse (unpack m)).map (fun d => toString d.toF64)))
-      else if acc == "period" then fmt ((shipped.toPeriod a).map toString)
-      else if acc == "group" then fmt ((shipped.toGroup a).map (fun g => match g with | some n => toString n | none => "None"))
-      else "bad-op"
+      let h := handSide acc a strict
+      if h == "bad-op" then "bad-op" else h ++ " || " ++ srcSide acc a strict method
+  match splitOnChar line ' ' with
+  | [acc, st, kind, payload] => go acc st kind payload none
+  | [acc, st, kind, payload, m] => if (accName? m).isSome then go acc st kind payload (some m) else "bad-op"
   | _ => "bad-op"
 
 def main : IO Unit := mainLoop stepC01
